@@ -96,9 +96,11 @@ func (P *Prog) checkEffectsRule(r *Result, g *modCG, rule string, fns []*ssa.Fun
 		for _, ef := range ws {
 			nw++
 			for _, c := range ef.classes {
-				// state that execution code never reads carries nothing between executions (a counter, a timing)
+				// state that execution code never reads carries nothing between executions (a counter, a timing) -
+				// provided the write itself is atomic: a plain store to a package variable from two executions at
+				// once is a data race whether or not anybody reads it
 				if c.class == mcGlobal {
-					if g, isG := c.rt.v.(*ssa.Global); isG && P.writeOnlyInExecution(g) {
+					if g, isG := c.rt.v.(*ssa.Global); isG && P.writeOnlyInExecution(g) && atomicWriteOnly(callOf(ef.w.in)) {
 						continue
 					}
 				}
